@@ -254,8 +254,8 @@ PROPS["C16"] = {
     "assumptions": COMMON_ASSUMPTIONS,
     "required_classes": ["golden_vectors", "procedure_numbers_checked", "type_WRITE3args", "type_READDIRPLUS3res", "type_Mountres3"],
     "units": [
-        {"test": "^TestC16RoundTrip$", "quick": {"checks": 6000, "shards": 4}, "thorough": {"checks": 300000, "shards": 8}},
-        {"test": "^TestC16Bytes$", "quick": {"checks": 20000, "shards": 4}, "thorough": {"checks": 1000000, "shards": 8}},
+        {"test": "^TestC16RoundTrip$", "quick": {"checks": 6000, "shards": 4}, "thorough": {"checks": 100000, "shards": 8}},
+        {"test": "^TestC16Bytes$", "quick": {"checks": 20000, "shards": 4}, "thorough": {"checks": 250000, "shards": 8}},
         {"test": "^TestC16Golden$", "norapid": True, "quick": {"shards": 1}},
         {"test": "^TestC16Dispatch$", "norapid": True, "quick": {"shards": 1}},
         {"test": "^FuzzC16Decode$", "fuzz": True, "quick": {"shards": 1}, "thorough": {"shards": 1, "fuzztime": 300, "procs": 16, "timeout": 900}},
